@@ -340,11 +340,11 @@ def m_ops():
                 ops.append(("wm", size, off, val))
     for rg in MREGS:
         ops.append(("r", rg))
-    ops += [("rm", 8, 0), ("rm", 32, 0), ("rm", 8, 1), ("copy",), ("mcopy",), ("ru", "r"), ("ru", "s")]
+    ops += [("rm", 8, 0), ("rm", 32, 0), ("rm", 8, 1), ("copy",), ("mcopy",), ("ru", "r"), ("ru", "s"), ("ev", "alias"), ("ev", "store")]
     return ops
 
 
-OBSERVERS = ("r", "rm", "copy", "mcopy", "ru")
+OBSERVERS = ("r", "rm", "copy", "mcopy", "ru", "ev")
 
 
 def m_content(m, E, R, envs):
@@ -420,6 +420,21 @@ def m_run(hist):
                 c = mapper()
                 c.setmemory(m.mmap.copy())
                 kept.append(("copy of m.mmap after step %d" % k, c, "mapper", m_snapshot_mapper(c, E, R, envs)))
+            elif op[0] == "ev":
+                # evaluate another (block) map in this mapper / compose it after this mapper: m is only an environment
+                from amoco.config import conf
+                old = conf.Cas.noaliasing
+                try:
+                    conf.Cas.noaliasing = (op[1] != "alias")
+                    B = mapper()
+                    B[E.mem(R["p"], 32)] = R["t"]
+                    B[E.mem(R["t"], 32, disp=4)] = E.cst(0x0BADF00D, 32)
+                    if op[1] == "alias":
+                        B[R["s"]] = B(E.mem(R["p"], 32))
+                    res = m >> B
+                finally:
+                    conf.Cas.noaliasing = old
+                kept.append(("(m >> block) after step %d" % k, res, "mapper", m_snapshot_mapper(res, E, R, envs)))
             elif op[0] == "ru":
                 # read a register and use the result as an operand (simplifying the new expression, slicing the result)
                 x = m[R[op[1]]]
